@@ -36,28 +36,29 @@ Theorem C29_canon_uri_lower_hex : forall path,
 Proof. exact canon_uri_lower_hex. Qed.
 Print Assumptions C29_canon_uri_lower_hex.
 
-(* header canonicalisation: the full claim (server = documented Trimall of every value) is FALSE *)
-Definition C29_canon_headers_full : Prop := forall host h signed,
-  collect_signed_headers host h signed = spec_header_pairs host h signed.
-Theorem C29_canon_headers_refuted : ~ C29_canon_headers_full.
-Proof. intros H. exact (headers_differ (H _ _ _)). Qed.
-Print Assumptions C29_canon_headers_refuted.
+(* header canonicalisation (after /repo bc241f9): canonicalHeaderValue — TrimSpace, then ReplaceAll("  ", " ")
+   until no run of spaces is left — is the documented Trimall (runs of spaces collapsed, white space stripped at
+   both ends) for EVERY byte string ... *)
+Theorem C29_canon_header_value_eq_spec : forall v, canonical_header_value v = spec_trimall v.
+Proof. exact canonical_header_value_eq_spec. Qed.
+Print Assumptions C29_canon_header_value_eq_spec.
 
-(* the strongest true statement: equal whenever Trimall leaves the host and every value of every signed header
-   unchanged (no run of two spaces, no white space at the ends — the ends are what the HTTP parser strips) *)
-Theorem C29_canon_headers_partial : forall host h signed,
-  (collapse_spaces host = host /\ trim_space host = host) ->
-  (forall k vs, In (k, vs) h -> mem_bytes (to_lower k) signed = true ->
-     Forall (fun v => collapse_spaces v = v /\ trim_space v = v) vs) ->
+(* ... hence the server's signed header block (host + every signed header, names lower-cased, sorted, each value
+   canonicalised, values joined by ',') is the documented one for all hosts, header maps and signed-name lists.
+   Nothing is excluded inside the model; what the model does not see: white space is ASCII (\t \n \v \f \r and
+   space, as strings.TrimSpace on ASCII) — Go's TrimSpace also strips Unicode spaces (U+0085, U+00A0, ...) at the
+   ends, which server and SDK do alike; only runs of the space byte 0x20 are collapsed (tabs are kept, by server,
+   SDK and specification alike). *)
+Theorem C29_canon_headers_full : forall host h signed,
   collect_signed_headers host h signed = spec_header_pairs host h signed.
 Proof. exact collect_eq_spec. Qed.
-Print Assumptions C29_canon_headers_partial.
+Print Assumptions C29_canon_headers_full.
 
 (* end to end: a request whose signature is a MAC, under the key of a configured credential for the configured
    region, of the DOCUMENTED canonical request (what a standard client signs), presented inside the time window,
    is authenticated as that credential — whatever its decoded path, query string, method, payload mode and
-   header/presigned mode; excluded region: header values that Trimall would change (see _refuted above). *)
-Theorem C29_standard_request_accepted_partial :
+   header/presigned mode and whatever white space its header values contain. *)
+Theorem C29_standard_request_accepted :
   forall cfg facts now r path p id date region service term secret t,
   r_path r = spec_uri_encode true path ->
   existsb is_ctl (r_query r) = false ->
@@ -76,10 +77,6 @@ Theorem C29_standard_request_accepted_partial :
   has_aws_chunked (hget B"Content-Encoding" (r_headers r))
     && mem_bytes (hget sha_hdr (r_headers r))
          [B"STREAMING-AWS4-ECDSA-P256-SHA256-PAYLOAD"; B"STREAMING-AWS4-ECDSA-P256-SHA256-PAYLOAD-TRAILER"] = false ->
-  (collapse_spaces (r_host r) = r_host r /\ trim_space (r_host r) = r_host r) ->
-  (forall k vs, In (k, vs) (r_headers r) ->
-     mem_bytes (to_lower k) (signed_header_names (p_signed_headers p)) = true ->
-     Forall (fun v => collapse_spaces v = v /\ trim_space v = v) vs) ->
   verify facts {| k_secret := secret; k_date := date; k_region := region; k_service := service; k_term := term |}
     {| s_alg := p_alg p; s_ts := p_timestamp p; s_scope := join B"/" [date; region; service; term];
        s_cr := canonical_request_of (r_method r) (spec_canonical_uri path)
@@ -88,19 +85,22 @@ Theorem C29_standard_request_accepted_partial :
                  (payload_line r (p_presigned p)) |} (p_signature p) = true ->
   middleware cfg facts now r = Accepted id.
 Proof. exact standard_request_accepted. Qed.
-Print Assumptions C29_standard_request_accepted_partial.
+Print Assumptions C29_standard_request_accepted.
 
 (* ---- non-vacuity ---- *)
 Example C29_ex_uri : canonical_uri (spec_uri_encode true B"/bucket/a b+c%~//d*") = B"/bucket/a%20b%2Bc%25~//d%2A".
 Proof. vm_compute. reflexivity. Qed.
 Example C29_ex_query : canonical_query B"b=2&a-=1&a%2F=x+y&X-Amz-Signature=ff&a-=0" = B"a%2F=x%20y&a-=0&a-=1&b=2".
 Proof. vm_compute. reflexivity. Qed.
-(* the refutation witness in full: "a  b" stays "a  b" on the server, the documented form is "a b" *)
+(* the former refutation witness: "a  b" is now canonicalised to "a b" by server and specification alike;
+   HISTORICAL: before bc241f9 the server used TrimSpace(Join(values, ",")) and kept "a  b" (finding
+   C29-header-inner-spaces, fixed) *)
 Example C29_ex_headers :
-  collect_signed_headers B"s3.localhost" [(B"X-Amz-Meta-A", [B"a  b"])] [B"host"; B"x-amz-meta-a"]
-    = [(B"host", B"s3.localhost"); (B"x-amz-meta-a", B"a  b")] /\
-  spec_header_pairs B"s3.localhost" [(B"X-Amz-Meta-A", [B"a  b"])] [B"host"; B"x-amz-meta-a"]
-    = [(B"host", B"s3.localhost"); (B"x-amz-meta-a", B"a b")].
+  collect_signed_headers B"s3.localhost" [(B"X-Amz-Meta-A", [B" a  b "; B"c   d	"])] [B"host"; B"x-amz-meta-a"]
+    = [(B"host", B"s3.localhost"); (B"x-amz-meta-a", B"a b,c d")].
+Proof. vm_compute. reflexivity. Qed.
+Example C29_ex_headers_historical :
+  old_header_value [B"a  b"] = B"a  b" /\ join B"," (map spec_trimall [B"a  b"]) = B"a b".
 Proof. vm_compute. split; reflexivity. Qed.
 (* a complete header-mode request that satisfies every hypothesis of the end-to-end theorem is accepted *)
 Definition ex_req : request :=
